@@ -15,7 +15,7 @@ from gym_gridverse.gym import outer_space_to_gym_space
 from .. import configs, dyn, reach
 from .. import reps as P
 from ..choice import ChoiceRng
-from ..desc import mkobs, mkstate, sdesc, tup
+from ..desc import NONE, mkobs, mkstate, sdesc, tup
 from ..pool import pmap
 
 GRID_SHAPES = [(2, 2), (2, 3), (3, 2), (3, 3)]
@@ -157,6 +157,61 @@ def _work(job):
     return n, spaces, fails
 
 
+def judge_agent_bounds(n):
+    """the continuous agent entry of the state representations on long grids: every agent cell (the last row / column in
+    particular) x heading, for n x 2, 2 x n and n x 3 grids; exact containment in the declared space and the gym Box"""
+    cnt = 0
+    for shape in ((n, 2), (2, n), (n, 3)):
+        types, colours = ('Floor', 'Wall'), ()
+        sp = P.state_space(shape, types, colours)
+        for repname in P.REPS:
+            rep = P.make_state_representation(repname, sp)
+            gsp = outer_space_to_gym_space(rep.space)
+            base = P.fill(shape, P.objects_of(types, colours)[0])
+            H, W = shape
+            cells = {(y, x) for y in range(H) for x in (0, W - 1)} | {(y, x) for y in (0, H - 1) for x in range(W)}
+            for (y, x) in sorted(cells):
+                for h in 'FRBL':
+                    cnt += 1
+                    m = check_rep(rep, gsp, mkstate((base, y, x, h, NONE)), f'state {repname}')
+                    if m:
+                        return cnt, f'{shape[0]}x{shape[1]} grid, agent at {(y, x)} facing {h}: {m}', {'shape': list(shape), 'rep': repname}
+    return cnt, None, None
+
+
+def judge_space_object_is_callers(kind, shape, types, colours, repname):
+    """a space object handed out by a representation belongs to the caller: writing to its bound arrays (+= 1, to size an
+    embedding table, say) changes neither later conversions nor the bounds a later request reports"""
+    objs = P.objects_of(types, colours)
+    if kind == 'state':
+        rep = P.make_state_representation(repname, P.state_space(shape, types, colours))
+        members = [mkstate(m) for m in list(P.state_members(shape, objs))[::5]]
+    else:
+        rep = P.make_observation_representation(repname, P.obs_space(shape, types, colours))
+        members = [mkobs(m) for m in list(P.obs_members(shape, objs))[::5]]
+    before = [{k: np.array(v, copy=True) for k, v in rep.convert(m).items()} for m in members]
+    bounds = {k: (np.array(v.lower_bound, copy=True), np.array(v.upper_bound, copy=True)) for k, v in rep.space.items()}
+    handed = rep.space
+    for k in handed:
+        for arr in (handed[k].upper_bound, handed[k].lower_bound):
+            try:
+                arr += 1
+            except Exception:  # noqa: BLE001 -- read-only arrays are fine
+                pass
+    n = 0
+    for m, b in zip(members, before):
+        n += 1
+        now = rep.convert(m)
+        if set(now) != set(b) or any(not np.array_equal(now[k], b[k]) for k in b):
+            return n, (f'{kind} [{repname}] types {list(types)} colours {list(colours)}: after the bound arrays of a space object '
+                       f'returned earlier were incremented in place by their owner, the same member converts differently')
+    again = rep.space
+    for k, (lo, hi) in bounds.items():
+        if again is not handed and (not np.array_equal(again[k].lower_bound, lo) or not np.array_equal(again[k].upper_bound, hi)):
+            return n, f'{kind} [{repname}]: a later request for the space reports bounds moved by a write to an earlier returned space object'
+    return n, None
+
+
 def judge_gym_switching(name, seed):
     """at the gym layer, after every step and after every representation switch (all ordered pairs), the current
     observation / state lie in the currently advertised spaces"""
@@ -237,6 +292,10 @@ def replay(case):
             if f['kind'] == 'space_order':
                 return f['message']
         return None
+    if case['kind'] == 'agent_bounds':
+        return judge_agent_bounds(case['n'])[1]
+    if case['kind'] == 'space_owner':
+        return judge_space_object_is_callers(case['skind'], tuple(case['shape']), tuple(case['types']), tuple(case['colours']), case['rep'])[1]
     if case['kind'] == 'gym_switch':
         return judge_gym_switching(case['config'], case['seed'])[1]
     if case['kind'] == 'space':
@@ -292,6 +351,22 @@ def run(rep, tier, seed):
         fails.extend(fl)
     fails.sort(key=lambda f: f['simplicity'])
     dyn.report_fails(rep, fails, replay)
+    an = 0
+    for k, m, info in pmap(judge_agent_bounds, list(range(2, 41 if tier == 'quick' else 81))):
+        an += k
+        if m:
+            rep.violation({'kind': 'agent_bounds', 'n': info['shape'][0] if info['shape'][0] > 3 else info['shape'][1], 'sig': {'part': 'agent_bounds', 'rep': info['rep']}}, m)
+    rep.part('agent_entry_on_long_grids', conversions=an, sizes='2..40' if tier == 'quick' else '2..80')
+    on = 0
+    for kind, shape, types, colours in (('state', (2, 3), ('Wall', 'Floor', 'Exit', 'Door', 'Key'), (1, 4)), ('observation', (2, 3), ('Wall', 'Floor', 'Exit', 'Door', 'Key'), (1, 4)),
+                                        ('observation', (3, 3), ('Floor', 'Telepod', 'Beacon'), (2,)), ('state', (2, 2), ('Floor', 'Key'), ())):
+        for repname in P.REPS:
+            k, m = judge_space_object_is_callers(kind, shape, types, colours, repname)
+            on += k
+            if m:
+                rep.violation({'kind': 'space_owner', 'skind': kind, 'shape': list(shape), 'types': list(types), 'colours': list(colours), 'rep': repname,
+                               'sig': {'part': 'space_owner', 'rep': repname}}, m)
+    rep.part('returned_space_objects', conversions=on)
     gn = 0
     for name in (configs.SMALL + ['keydoor.7x7', 'memory_four_rooms.7x7'] if tier == 'quick' else [c for c, _ in configs.all_configs()]):
         k, m = judge_gym_switching(name, seed + 3)
